@@ -25,8 +25,18 @@ Want(cfg, T, v) == LET s == Selected(cfg, T, v) IN [i \in DOMAIN s |-> <<s[i][1]
 LastTags(cfg, v) == CASE v = "p" -> S(cfg.p2) [] v = "q" -> S(cfg.q) [] v = "a" -> S(cfg.a) [] v = "b" -> S(cfg.b2) [] v = "c" -> S(cfg.c2)
 WantLW(cfg, T, v) == LET s == SelectSeq(Selected(cfg, T, v), LAMBDA b : T \in LastTags(cfg, b[1])) IN [i \in DOMAIN s |-> <<s[i][1], s[i][2]>>]
 AllBinds(cfg) == [i \in DOMAIN Bindings(cfg) |-> <<Bindings(cfg)[i][1], Bindings(cfg)[i][2]>>]
+\* tag algebra with object identity (A level of TagHeap.tla): the heap of denotations after the first k operations
+RECURSIVE AHeap(_, _)
+AHeap(ops, k) == IF k = 0 THEN <<>>
+                 ELSE LET h == AHeap(ops, k - 1)  o == ops[k]
+                      IN Append(h, IF o.op = "tag" THEN {o.n} ELSE h[o.i] \cup h[o.j])
+AlgebraStep(c, k) == LET want == AHeap(c.ops, k)
+                         got == [x \in DOMAIN c.snaps[k] |-> S(c.snaps[k][x])]
+                     IN (IF got[k] # want[k] THEN {"TagAlgebra:result"} ELSE {}) \cup
+                        (IF \E x \in 1..(k - 1) : got[x] # want[x] THEN {"TagAlgebra:operand-changed"} ELSE {})
 Verdicts(c) ==
-  CASE c.kind \in {"generic", "star", "named"} ->
+  CASE c.kind = "algebra" -> UNION {AlgebraStep(c, k) : k \in DOMAIN c.ops}
+    [] c.kind \in {"generic", "star", "named"} ->
          LET key == IF c.kind = "generic" THEN "x" ELSE IF c.kind = "star" THEN "/" ELSE c.var
              exists == c.kind # "named" \/ c.var \in Names
              should == AnyTagged(c.cfg, c.T, c.var)
@@ -59,6 +69,13 @@ Verdicts(c) ==
          IN (IF should /\ c.outcome # "ok" THEN {IF shouldLW THEN "WronglyRefused" ELSE "WronglyRefused:last-annotation-wins"} ELSE {}) \cup
             (IF ~should /\ c.outcome = "ok" THEN {"NotRefused"} ELSE {}) \cup
             (IF c.outcome = "ok" /\ got # want THEN {IF got = wantLW THEN "TagContext:last-annotation-wins" ELSE "TagContext"} ELSE {})
+    [] c.kind = "decl" ->
+         \* def u(p: Tp): k = 1; z: Tz; r = z + p; return r     called with p = 3, the probe overrides every capture with 70
+         LET zs == c.T \in S(c.cfg.z)  ps == c.T \in S(c.cfg.p)
+         IN IF ~zs /\ ~ps THEN (IF c.outcome = "SelectorError" THEN {} ELSE IF c.outcome = "ok" THEN {"NotRefused"} ELSE {"WrongError"})
+            ELSE IF zs THEN (IF c.outcome = "ok" /\ c.result = 70 + (IF ps THEN 70 ELSE 3)
+                                /\ c.names = (IF ps THEN <<"p", "z">> ELSE <<"z">>) THEN {} ELSE {"DeclaredTaggedSupplied"})
+            ELSE (IF c.outcome = "NameError" /\ c.names = <<"p">> THEN {} ELSE {"DeclaredUntaggedLeftAlone"})
     [] c.kind = "fnpos" ->
          \* c is bound twice per call
          (IF \A i \in DOMAIN c.fired : c.fired[i] = (IF c.T \in S(c.rets[i]) THEN 2 ELSE 0) THEN {} ELSE {"FunctionPositionTag"})
